@@ -132,11 +132,53 @@ GiantCmpViol(r) ==
                 ELSE [first |-> x.first, second |-> x.second, then_none |-> x.then_none]
   IN IF \E i, j \in 1..Len(r.runs) : Sum(r.runs[i]) # Sum(r.runs[j]) THEN {<<"C03", "outcome_depends_on_the_initial_capacity">>} ELSE {}
 
+\* ---- far seeks (harness far.rs): a virtual file of more than 2^32 records of 32 bytes each, record k (0-based, two limbs
+\* <<kh, kl>> to base 2^16, because TLC's integers have 32 bits) has the header "KKKKKKKKKK.LLLLL d", starts at byte 32 k and at
+\* line 4 k + 1 (FASTQ) / 3 k + 1 (FASTA). A script of next / set / seek steps; the abstract state is the index of the next
+\* unread record. Offsets, line numbers and seek distances beyond 2^31 / 2^32: C05 ("seeking to the position of any record -
+\* whether or not the target is still inside the buffer"), C04 (the same records from the seek target onwards on every path).
+Norm2(hi, lo) == <<hi + lo \div 65536, lo % 65536>>
+Add2(c, n) == Norm2(c[1], c[2] + n)
+Mul2(c, f, plus) == Norm2(c[1] * f, c[2] * f + plus)
+Less2(a, b) == a[1] < b[1] \/ (a[1] = b[1] /\ a[2] < b[2])
+PadN(n, d) == [i \in 1..(n - Len(d)) |-> 48] \o d
+HeadFar(c) == PadN(10, Dec(c[1])) \o <<46>> \o PadN(5, Dec(c[2])) \o <<32, 100>>
+LineFar(fmt, c) == Mul2(c, LinesPerRec(fmt), 1)
+ByteFar(c) == Mul2(c, 32, 0)
+RECURSIVE FarFold(_, _, _, _, _)
+FarFold(r, i, cur, seeked, acc) ==
+  IF i > Len(r.steps) THEN acc
+  ELSE LET st == r.steps[i]
+           base == IF r.fmt = "fasta" THEN "C01" ELSE "C02"
+           tagC == IF seeked THEN {"C05", "C04"} ELSE {base}
+           atEnd == ~Less2(cur, r.nrec)
+           T(ps, why) == {<<q, why>> : q \in ps}
+       IN IF st.op = "seek" THEN
+            FarFold(r, i + 1, st.t, TRUE, acc \cup (IF st.ok THEN {} ELSE T({"C05", "C14"}, "seek_failed_without_source_error")))
+          ELSE IF st.op = "next" THEN
+            IF atEnd THEN FarFold(r, i + 1, cur, seeked, acc \cup (IF st.k = "none" THEN {} ELSE T(tagC, "result_after_the_last_record")))
+            ELSE IF st.k # "rec" THEN acc \cup T(tagC, "far_record_not_returned")      \* (the stream is lost: stop judging)
+            ELSE FarFold(r, i + 1, Add2(cur, 1), seeked,
+                         acc \cup (IF st.head = HeadFar(cur) THEN {} ELSE T(tagC, "far_record_content"))
+                             \cup (IF st.line = LineFar(r.fmt, cur) /\ st.byte = ByteFar(cur) THEN {} ELSE T({"C05"}, "far_position_of_returned_record")))
+          ELSE \* set
+            IF atEnd THEN FarFold(r, i + 1, cur, seeked, acc \cup (IF st.k = "none" THEN {} ELSE T(tagC, "result_after_the_last_record")))
+            ELSE IF st.k # "some" \/ st.n < 1 THEN acc \cup T(tagC \cup {"C04"}, "far_record_set_not_returned")
+            ELSE LET nxt == Add2(cur, st.n)
+                     headsOK == \A j \in 1..Len(st.heads) : st.heads[j].head = HeadFar(Add2(cur, st.heads[j].i))
+                     within == ~Less2(r.nrec, nxt)
+                     posOK == ~st.pos.has \/ ~Less2(nxt, r.nrec) \/ (st.pos.line = LineFar(r.fmt, nxt) /\ st.pos.byte = ByteFar(nxt))
+                 IN FarFold(r, i + 1, nxt, seeked,
+                            acc \cup (IF headsOK /\ within THEN {} ELSE T(tagC \cup {"C04"}, "far_record_set_content"))
+                                \cup (IF posOK THEN {} ELSE T({"C05"}, "far_position_after_record_set")))
+FarViol(r) == IF r.panic THEN {<<"C06", "panic">>, <<"C05", "panic_in_far_seek_script">>, <<"C04", "panic_in_far_seek_script">>}
+              ELSE FarFold(r, 1, <<0, 0>>, FALSE, IF Len(r.steps) = r.nsteps THEN {} ELSE {<<"C06", "script_not_completed">>})
+
 \* a case that did not finish within a minute (C06: no input makes the readers loop forever; C10 for the writers)
 StuckViol(r) == IF r.writing THEN {<<"C10", "write_function_hangs">>} ELSE {<<"C06", "hang">>}
 
 Next == /\ l <= Len(Rec)
-        /\ LET v == IF Rec[l].ev = "giantcmp" THEN GiantCmpViol(Rec[l]) ELSE IF Rec[l].ev = "stuck" THEN StuckViol(Rec[l]) ELSE IF Rec[l].ev = "giant" THEN GiantViol(Rec[l]) ELSE IF Rec[l].ev = "longw" THEN LongWriteViol(Rec[l]) ELSE IF Rec[l].ev = "poltab" THEN PolViol(Rec[l]) ELSE Viol(Rec[l]) IN
+        /\ LET v == IF Rec[l].ev = "far" THEN FarViol(Rec[l]) ELSE IF Rec[l].ev = "giantcmp" THEN GiantCmpViol(Rec[l]) ELSE IF Rec[l].ev = "stuck" THEN StuckViol(Rec[l]) ELSE IF Rec[l].ev = "giant" THEN GiantViol(Rec[l]) ELSE IF Rec[l].ev = "longw" THEN LongWriteViol(Rec[l]) ELSE IF Rec[l].ev = "poltab" THEN PolViol(Rec[l]) ELSE Viol(Rec[l]) IN
              v # {} => PrintT(<<"MISMATCH", ToJson([kind |-> "long", line |-> l, run |-> l, props |-> {x[1] : x \in v}, why |-> {x[2] : x \in v},
                                                    extra |-> [fmt |-> Rec[l].fmt, cap |-> Rec[l].cap, ev |-> Rec[l].ev]])>>)
         /\ l' = l + 1
